@@ -15,7 +15,6 @@ import (
 	"strings"
 	"sync"
 	"time"
-
 )
 
 func load(path string) []*Scenario {
